@@ -1,8 +1,14 @@
 package main
 
 import (
+	"bytes"
 	"encoding/json"
+	"fmt"
 	"os"
+	"os/exec"
+	"path/filepath"
+	"strings"
+	"time"
 )
 
 // A pure case: named runner + string inputs. Runners compare impl vs model (mismatch)
@@ -16,7 +22,94 @@ func (c *Ctx) run(name string, in map[string]string) {
 	if !ok {
 		fatal("no runner %q", name)
 	}
+	if isolatedRunners[name] && !isolatedChild {
+		c.runIsolated(name, in)
+		return
+	}
+	prev := c.R.cur
+	c.R.cur = name
+	defer func() { c.R.cur = prev }()
 	r(c, in)
+}
+
+// isolatedRunners drive a real client inside this process (MockConnect over net.Pipe, scripted dialers): a panic in one of
+// the library's goroutines would end the whole run without naming the input.  They are executed in a child process each;
+// the child's result is merged, and a child that dies is reported as a violation with the input that killed it.
+var isolatedRunners = map[string]bool{"wireparse": true, "sendwire": true, "slowpeer": true, "capreconnect": true, "tagsqueue": true, "capsharedconfig": true,
+	"sensitivedropped": true, "sensitivefault": true, "saslreconnect": true, "sasllate": true, "stsupgrade": true, "stsdialfail": true, "ststls": true,
+	"stsrebase": true, "stsfailedthenclose": true, "linelenreconnect": true, "idreconnect": true, "cmdwire": true, "globalformat": true}
+
+func (c *Ctx) runIsolated(name string, in map[string]string) {
+	dir, err := os.MkdirTemp("", "corr-iso")
+	if err != nil {
+		fatal("%v", err)
+	}
+	defer os.RemoveAll(dir)
+	b, _ := json.Marshal(in)
+	inPath, outPath := filepath.Join(dir, "in.json"), filepath.Join(dir, "out.json")
+	if err := os.WriteFile(inPath, b, 0o644); err != nil {
+		fatal("%v", err)
+	}
+	cmd := exec.Command(os.Args[0], "-prop", c.R.Property, "-tier", tierArg, "-seed", fmt.Sprint(seedArg), "-driver", driverPath,
+		"-repo", repoDir, "-verif", verifDir, "-runone", name, "-runin", inPath, "-out", outPath)
+	var buf bytes.Buffer
+	cmd.Stdout, cmd.Stderr = &buf, &buf
+	done := make(chan error, 1)
+	if err := cmd.Start(); err != nil {
+		fatal("%v", err)
+	}
+	go func() { done <- cmd.Wait() }()
+	timedOut := false
+	select {
+	case <-done:
+	case <-time.After(180 * time.Second):
+		cmd.Process.Kill()
+		<-done
+		timedOut = true
+	}
+	var res Result
+	rb, rerr := os.ReadFile(outPath)
+	if rerr != nil || json.Unmarshal(rb, &res) != nil {
+		what := "the process running this case died"
+		if timedOut {
+			what = "the process running this case did not finish within 180 s"
+		}
+		out := buf.String()
+		if i := strings.Index(out, "panic:"); i >= 0 {
+			out = out[i:]
+		}
+		if len(out) > 700 {
+			out = out[:700]
+		}
+		c.R.Violations = append(c.R.Violations, Issue{Kind: "violation", Name: name + ".crash", Input: hexIn(in), Impl: out, Runner: name,
+			Detail: what + " (a panic in one of the library's goroutines, or a deadlock): the case is its own replay"})
+		c.R.Dist["VIOLATION:"+name+".crash"]++
+		c.R.Evaluations++
+		return
+	}
+	c.R.Evaluations += res.Evaluations
+	c.R.Traces += res.Traces
+	for k, v := range res.Dist {
+		c.R.Dist[k] += v
+	}
+	for _, k := range res.SeenKeys {
+		if _, ok := c.R.seen[k]; !ok {
+			c.R.seen[k] = struct{}{}
+			c.R.Distinct++
+		}
+	}
+	for _, m := range res.Mismatches {
+		if len(c.R.Mismatches) < maxIssues {
+			c.R.Mismatches = append(c.R.Mismatches, m)
+		}
+	}
+	for _, v := range res.Violations {
+		if len(c.R.Violations) < maxIssues {
+			c.R.Violations = append(c.R.Violations, v)
+		}
+	}
+	c.R.KnownHits = append(c.R.KnownHits, res.KnownHits...)
+	c.R.Notes = append(c.R.Notes, res.Notes...)
 }
 
 type replayFile struct {
